@@ -48,7 +48,7 @@ func (p probe) Format(st fmt.State, verb rune) {
 }
 
 func streamForward(rep *Report, tier string, seed uint64) {
-	RunStream(rep, "F-makeformat", true, "32 flag subsets x widths {absent,0,1,7,12,1000,*} x precisions {absent,0,1,5,*} x 52 ASCII letters + 3 multi-byte verbs, under fmt's and redact's fmt.State; round-trip through MakeFormat; Safe(x)/Unsafe(x) vs x under fmt for 12 basic kinds", true, 1,
+	RunStream(rep, "F-makeformat", true, "32 flag subsets x widths {absent,0,1,7,12,1000,*} x precisions {absent,0,1,5,*} x 52 ASCII letters + 9 other ASCII characters + 3 multi-byte verbs, under fmt's and redact's fmt.State; round-trip through MakeFormat; Safe(x)/Unsafe(x) vs x under fmt for 12 basic kinds", true, 1,
 		func(sh, ns int, emit func(Case)) {
 			var verbs []string
 			for c := 'a'; c <= 'z'; c++ {
@@ -58,6 +58,9 @@ func streamForward(rep *Report, tier string, seed uint64) {
 				verbs = append(verbs, string(c))
 			}
 			verbs = append(verbs, "世", "é", "‹")
+			// ASCII characters that are not letters are verbs too ("any verb"): fmt reports them as bad verbs *through* the
+			// Formatter when the operand has one
+			verbs = append(verbs, "!", "_", "~", "@", "?", "]", "$", "}", "&")
 			widths := []string{"", "0", "1", "7", "12", "1000", "*", "*0", "*-"}
 			precs := []string{"", ".0", ".1", ".5", ".*"}
 			operands := []interface{}{true, 42, -7, uint8(200), 3.25, complex(1, -2), "str", []byte("by"), []byte{}, []byte(nil), 'x', errors.New("e"), strg{"s"}, nil, []int{1, 2}, map[string]int{"a": 1}, struct{ A int }{3}, &intCell, [2]byte{1, 2}, MyStr("ms")}
